@@ -50,10 +50,13 @@ FAMILIES = {
         "vars": [("x", "x", [], False, False),
                  ("n:y", "y", [("string.split", ",")], False, False),
                  ("n:u", "y", [("string.to_upper", None)], False, True),
-                 ("n:w", "x", [("string.split", None)], False, False)],      # "" -> [] (falsy, unhashable)
+                 ("n:w", "x", [("string.split", None)], False, False),       # "" -> [] (falsy, unhashable)
+                 # one variable whose values are of different KINDS from line to line (and from one version of the
+                 # file to the next): None (hashable, used) where the group is absent, a list where it is present
+                 ("n:l", "y", [("string.split", ",")], False, True)],
         "lines": ["a;0", "b;", "a;1", "b;1", "a;2", "b;2;p,q", "c;1;p,q", "c;;p", "a;1;p,q", "b;;q,p", "#x", "", " ", "\t", "bad line",
                   "a;1\x0c", "#\x85x", "c;2;p", "b;9", "b;9;p,q", "a;2;p,q"],
-        "finds": [("n:w", []), ("n:w", ["1"]), ("n:w", ["0"]), ("x", "0"), ("x", "1"), ("x", "2"), ("x", ""), ("n:y", ["p", "q"]), ("n:y", ["p"]), ("n:u", None),
+        "finds": [("n:l", None), ("n:l", ["p", "q"]), ("n:l", ["p"]), ("n:l", "p"), ("n:w", []), ("n:w", ["1"]), ("n:w", ["0"]), ("x", "0"), ("x", "1"), ("x", "2"), ("x", ""), ("n:y", ["p", "q"]), ("n:y", ["p"]), ("n:u", None),
                   ("n:u", "P,Q"), ("x", None), ("zz", "1"), ("n:y", "p,q"), ("n:y", None), ("n", "1"), ("x", 1),
                   ("n:y", ["q", "p"])],
         "gets": ["a", "b", "c", "d", ["a"]],
@@ -293,6 +296,27 @@ class Sandbox:
     def __init__(self):
         self.dir = None
         self.tick = 1_000_000_000
+        self.link = False
+        self.targets = []
+
+    def configure(self, link):
+        """start of a case: empty directory; with link=True the configured path systems.txt is a SYMBOLIC LINK to
+        the file that holds the content (edits rewrite or replace the target, or re-point the link)"""
+        self.path()
+        for fn in os.listdir(self.dir):
+            os.unlink(os.path.join(self.dir, fn))
+        self.link = bool(link)
+        self.targets = ["target0.txt"]
+        if self.link:
+            os.symlink(self.targets[-1], os.path.join(self.dir, "systems.txt"))
+
+    def target(self):
+        return os.path.join(self.dir, self.targets[-1]) if self.link else self.path()
+
+    def repoint(self, name):
+        tmp = os.path.join(self.dir, "systems.lnk")
+        os.symlink(name, tmp)
+        os.replace(tmp, self.path())
 
     def path(self):
         if self.dir is None:
@@ -310,7 +334,21 @@ class Sandbox:
           replace_restore  new inode + rename, then os.utime back to the old mtime: mtime (and size for same-length
                            content) stay; ino and ctime change
         In every kind the kernel advances ctime, so "every change of the file changes its stat version" holds."""
-        p = self.path()
+        self.path()
+        if self.link and mode == "relink_back" and len(self.targets) >= 2:
+            # roll the link back to the previous target (its content is the state the generator hands in)
+            self.targets.pop()
+            self.repoint(self.targets[-1])
+            return
+        if self.link and mode == "relink" and fsx[0] != "missing":
+            # switch the link to another file that holds the new content
+            self.nlink = getattr(self, "nlink", 0) + 1
+            self.targets.append("target%d.txt" % self.nlink)
+            mode = "replace"
+            relink = True
+        else:
+            relink = False
+        p = self.target()
         if fsx[0] == "missing":
             if os.path.exists(p):
                 os.unlink(p)
@@ -330,6 +368,8 @@ class Sandbox:
         self.tick += 1_000_000_000
         os.utime(tmp, ns=(self.tick, self.tick))
         os.replace(tmp, p)
+        if relink:
+            self.repoint(self.targets[-1])
         if old is not None and mode == "replace_restore":
             self.restore(p, old)
 
@@ -519,7 +559,7 @@ class C14(Check):
         return ("text", "".join(parts))
 
     def random_edit(self, f, rng, cur):
-        mode = rng.choice(["replace", "replace", "replace", "inplace_restore", "inplace_restore", "replace_restore"])
+        mode = rng.choice(["replace", "replace", "replace", "inplace_restore", "inplace_restore", "replace_restore", "relink"])
         stt = None
         if mode != "replace" and rng.random() < 0.75:
             stt = self.same_size_variant(f, rng, cur)
@@ -672,6 +712,34 @@ class C14(Check):
                                "init": ("text", "#c\n" + x + eol),
                                "hist": [("get", sid), ("edit", ("text", y + eol + ("" if eol else "\n") + "c;x;y\n")), ("get", sid),
                                         ("find", "x", "r|7")]}
+        # 2g. the configured path is a symbolic link: the target is rewritten in place / replaced by rename, the
+        #     link is switched to another file and rolled back
+        for fam in MAIN_FAMS:
+            f = FAMILIES[fam]
+            bat = self.battery(f)
+            for fl in self.flags():
+                if (not fl["cache"] and rng.random() < 0.7) or (quick and rng.random() < 0.6):
+                    continue
+                a = ("text", self.contents(f, rng, rng.choice([1, 2, 3])))
+                b = self.same_size_variant(f, rng, a) or ("text", self.contents(f, rng, rng.choice([1, 2, 4])))
+                cst = self.random_state(f, rng)
+                h = [rng.choice(bat), ("edit", b, rng.choice(["inplace_restore", "replace", "replace_restore"])), rng.choice(bat),
+                     rng.choice(bat), ("edit", cst, "relink"), rng.choice(bat), rng.choice(bat)]
+                if cst[0] != "missing":
+                    h += [("edit", b, "relink_back"), rng.choice(bat), rng.choice(bat)]
+                yield dict(fl, fam=fam, init=a, hist=h, omit=rng.random() < 0.5, link=True)
+        # 2h. a variable whose value kind (None / list) differs between lines and between versions of the file, in both
+        #     orders, looked up with both kinds after every step
+        f = FAMILIES["named"]
+        kinds = [("a;1", "b;2;p,q"), ("b;2;p,q", "a;1"), ("a;1;p", "b;1"), ("c;;p", "a;0")]
+        for (l1, l2) in kinds:
+            for cache in (True, False):
+                for ffm in (False, True):
+                    look = [("find", "n:l", None), ("find", "n:l", l1.split(";")[2].split(",") if l1.count(";") == 2 else ["p", "q"]),
+                            ("get", l1[0]), ("get", l2[0])]
+                    yield {"fam": "named", "cache": cache, "ffm": ffm, "mis": "error", "dup": "error", "omit": ffm,
+                           "init": ("text", l1 + "\n" + l2 + "\n"),
+                           "hist": look + [("edit", ("text", l2 + "\n"))] + look + [("edit", ("text", l1 + "\n"))] + look}
         # 2f. legal inputs at and beyond natural limits: long fields, long lines, many lines, many systems
         for n in ((255, 256, 4096) if quick else (254, 255, 256, 257, 1023, 1024, 4095, 4096, 4097, 8191, 8192, 20000)):
             long_line = "a;" + "x" * n + ";" + "|" * (n // 2)
@@ -689,7 +757,7 @@ class C14(Check):
         for _ in range(n):
             fam = rng.choice(MAIN_FAMS) if rng.random() < 0.92 else "raising"
             f = FAMILIES[fam]
-            case = dict(rng.choice(flags), fam=fam, omit=rng.random() < 0.5)
+            case = dict(rng.choice(flags), fam=fam, omit=rng.random() < 0.5, link=rng.random() < 0.3)
             if fam == "raising" and rng.random() < 0.5:
                 case["alt"] = True
                 f = fam_of(case)
@@ -712,6 +780,7 @@ class C14(Check):
     # ---- the real code
     def impl(self, c):
         path = SB.path()
+        SB.configure(c.get("link"))
         SB.apply(c["init"])
         src = TF.get_instance(make_config(c, path))
         out = []
@@ -832,7 +901,7 @@ class C14(Check):
         if c.get("_extra"):
             return c
         return {"family": c["fam"] + ("/alt" if c.get("alt") else ""),
-                "config": {k: c[k] for k in ("cache", "ffm", "mis", "dup")}, "defaults_omitted": bool(c.get("omit")),
+                "config": {k: c[k] for k in ("cache", "ffm", "mis", "dup")}, "defaults_omitted": bool(c.get("omit")), "configured_path_is_symlink": bool(c.get("link")),
                 "regular_expression": fam_of(c)["re"], "regular_expression_ignore": fam_of(c)["ign"],
                 "system_id": repr(fam_of(c)["sid"]), "variables": [repr(v) for v in fam_of(c)["vars"]],
                 "init": list(c["init"]), "hist": [(["call-with-injected-fault", list(s[1]), list(s[2])] if s[0] == "fcall" else
@@ -846,6 +915,7 @@ class C14(Check):
         (and is given 20 ms - it may be blocked by the lock B holds), B is resumed, both are joined, then the call is
         made once more sequentially.  Returns (answers [prologue, B, C, D], number of line events of B)."""
         path = SB.path()
+        SB.configure(False)
         SB.apply(old)
         src = TF.get_instance(make_config(cfgcase, path))
         pro = call_source(src, call)
